@@ -144,9 +144,11 @@ func stubClientDo(c *http.Client, req *http.Request) (*http.Response, error) {
 // --- the reverse proxy ---
 
 type vProxyPlan struct {
-	service time.Duration // how long the target takes to answer
-	never   bool          // the target never answers
-	hijack  bool
+	service       time.Duration // how long the target takes to answer
+	never         bool          // the target never answers
+	hijack        bool          // upgraded connection (hijacked at once)
+	hijackLate    bool          // the upgrade completes only after `service`
+	upgradeHeader bool          // the request merely carries an Upgrade header (no upgrade happens)
 }
 
 var vProxyPlans = map[int]*vProxyPlan{} // by request number
@@ -204,7 +206,22 @@ func stubReverseProxyServeHTTP(p *httputil.ReverseProxy, w http.ResponseWriter, 
 		vEmit(vEvent{kind: "forward_end", target: target, req: n, note: "hijack-closed"})
 		return
 	}
-	if plan.never {
+	if plan.hijackLate {
+		select {
+		case <-time.After(plan.service):
+			if hj, ok := w.(http.Hijacker); ok {
+				hj.Hijack()
+			}
+			vEmit(vEvent{kind: "upgraded", target: target, req: n})
+			vOpenEnded[n] = true
+			vOpenCtx[n] = ctx
+			<-ctx.Done()
+			vOpenEnded[n] = false
+			vEmit(vEvent{kind: "forward_end", target: target, req: n, note: "hijack-closed"})
+			return
+		case <-ctx.Done():
+		}
+	} else if plan.never {
 		vOpenEnded[n] = true
 		vOpenCtx[n] = ctx
 		<-ctx.Done()
@@ -238,8 +255,12 @@ func vDoRequest(h http.Handler, n int, host, path string) {
 	req = req.WithContext(context.WithValue(context.Background(), vReqKey, n))
 	w := vNewRecorder()
 	var rw http.ResponseWriter = w
-	if p := vProxyPlans[n]; p != nil && p.hijack {
+	if p := vProxyPlans[n]; p != nil && (p.hijack || p.hijackLate) {
 		rw = vHijackRecorder{w}
+	}
+	if p := vProxyPlans[n]; p != nil && p.upgradeHeader {
+		req.Header["Upgrade"] = []string{"h2c"}
+		req.Header["Connection"] = []string{"Upgrade"}
 	}
 	vEmit(vEvent{kind: "arrive", req: n})
 	h.ServeHTTP(rw, req)
@@ -251,7 +272,7 @@ func vDoRequest(h http.Handler, n int, host, path string) {
 
 // wrappers that put the deploy's internal steps on the trace (a stub may call the function it replaces)
 
-//verif:stub (*github.com/basecamp/kamal-proxy/internal/server.Router).installService harness=HarnessDeployGate,HarnessRedeployTraffic,HarnessDrainQuiescent,HarnessDrainQuiescentDirected,HarnessPauseHold,HarnessPauseHoldDirected,HarnessNoProbesAfter,HarnessCmdMix
+//verif:stub (*github.com/basecamp/kamal-proxy/internal/server.Router).installService harness=HarnessDeployGate,HarnessRolloutDeployGate,HarnessRedeployTraffic,HarnessDrainQuiescent,HarnessDrainQuiescentDirected,HarnessPauseHold,HarnessPauseHoldDirected,HarnessNoProbesAfter,HarnessCmdMix
 func stubInstallServiceTraced(r *Router, s *Service) error {
 	err := r.installService(s)
 	vEmit(vEvent{kind: "swap", ok: err == nil})
